@@ -62,6 +62,7 @@ static void case_reset(void)
   sim_ntx        = 0;
   sim_nsrv       = 0;
   sim_nfaults    = 0;
+  memset(sim_faults, 0, sizeof(sim_faults));
   memset(sim_callcount, 0, sizeof(sim_callcount));
   sim_callcount_all       = 0;
   memset(sim_fd_shape, 0, sizeof(sim_fd_shape));
